@@ -1281,6 +1281,14 @@ class EventBus:
             # Cancel the monitor task on timeout too
             monitor_task.cancel()
 
+            # Nobody cancelled us: the CancelledError came out of the handler itself (it awaited a cancelled task or
+            # future). That is an error of this handler like any other, not a reason to abort the event and the run loop
+            current_task = asyncio.current_task()
+            if current_task is not None and current_task.cancelling() == 0:
+                event.event_result_update(handler=handler, eventbus=self, error=e)
+                logger.error(f'❌ {self} Event handler {get_handler_name(handler)}({event}) ended with its own CancelledError')
+                return None
+
             # Create a RuntimeError for timeout
             # TODO: figure out why it breaks when we try to switch to InterruptedError instead of asyncio.CancelledError
             handler_interrupted_error = asyncio.CancelledError(
